@@ -231,6 +231,41 @@ fn names_touching(text: &str, o: usize) -> Vec<String> {
     out
 }
 
+/// Column units of `c` in a position encoding ("utf-8" bytes, "utf-32" characters, else UTF-16 units).
+fn units(c: char, enc: &str) -> u32 {
+    match enc {
+        "utf-8" => c.len_utf8() as u32,
+        "utf-32" => 1,
+        _ => c.len_utf16() as u32,
+    }
+}
+
+/// (line, column) of a byte offset, the column counted in `enc`.
+fn pos_in(doc: &RefDoc, off: usize, enc: &str) -> (u32, u32) {
+    let (line, _) = doc.pos_of(off);
+    let (ls, _) = doc.lines()[line as usize];
+    (line, doc.text[ls..off].chars().map(|c| units(c, enc)).sum())
+}
+
+/// Byte offset of (line, column) with the column counted in `enc`; None when it is not a character boundary of the line.
+fn offset_in(doc: &RefDoc, line: u32, col: u32, enc: &str) -> Option<usize> {
+    let (ls, le) = *doc.lines().get(line as usize)?;
+    let mut acc = 0u32;
+    if col == 0 {
+        return Some(ls);
+    }
+    for (i, c) in doc.text[ls..le].char_indices() {
+        acc += units(c, enc);
+        if acc == col {
+            return Some(ls + i + c.len_utf8());
+        }
+        if acc > col {
+            return None;
+        }
+    }
+    None
+}
+
 const LOC_PREFIXES: &[&str] = &["", "// é\n", "// 😀😀\n\n", "/// €€\n// x\n// y\n"];
 
 /// The two modules of the locations workspace; `inline` puts a string with astral and 2-/3-byte
@@ -261,15 +296,22 @@ fn server_locations_layer(rep: &mut Report, tier: Tier) {
                     continue;
                 }
                 for edited in [false, true] {
-                    cfgs.push((ia, ib, *pa, *pb, inline, edited));
+                    // the client of the last variant offers UTF-8 positions in `initialize` and then
+                    // counts columns in whatever encoding the server announces
+                    for offers_utf8 in [false, true] {
+                        if offers_utf8 && (edited || !inline) {
+                            continue;
+                        }
+                        cfgs.push((ia, ib, *pa, *pb, inline, edited, offers_utf8));
+                    }
                 }
             }
         }
     }
     let res: Vec<(u64, u64, Vec<Violation>)> = cfgs
         .par_iter()
-        .map(|(ia, ib, pa, pb, inline, edited)| {
-            let root = base.join(format!("w{ia}{ib}{}{}", *inline as u8, *edited as u8));
+        .map(|(ia, ib, pa, pb, inline, edited, offers_utf8)| {
+            let root = base.join(format!("w{ia}{ib}{}{}{}", *inline as u8, *edited as u8, *offers_utf8 as u8));
             let (ta, tb) = loc_files(pa, pb, *inline);
             let _ = std::fs::create_dir_all(root.join("src"));
             let _ = std::fs::write(root.join("gleam.toml"), "name = \"p\"\n");
@@ -288,7 +330,17 @@ fn server_locations_layer(rep: &mut Report, tier: Tier) {
             let mut viol: Vec<Violation> = vec![];
             let mut n = 0u64;
             let mut located = 0u64;
+            let enc = std::cell::RefCell::new("utf-16".to_string());
             let start = |srv: &mut InProc| {
+                if *offers_utf8 {
+                    let r = srv.request("initialize", json!({"processId": null, "rootUri": null, "capabilities": {"general": {"positionEncodings": ["utf-8", "utf-16"]}}}));
+                    if let Ok(Ok(v)) = r {
+                        if let Some(e) = v["capabilities"]["positionEncoding"].as_str() {
+                            *enc.borrow_mut() = e.to_string();
+                        }
+                    }
+                    let _ = srv.notify("initialized", json!({}));
+                }
                 let _ = srv.open(&ua, &ta);
                 let _ = srv.open(&ub, &tb);
                 if *edited {
@@ -299,13 +351,15 @@ fn server_locations_layer(rep: &mut Report, tier: Tier) {
             };
             let mut srv = InProc::new();
             start(&mut srv);
-            let wit = |kind: &str, uri: &str, pos: (u32, u32)| json!({"prefix_a": pa, "prefix_b": pb, "inline": inline, "edited": edited, "request": kind, "document": if uri == ua { "a" } else { "b" }, "position": [pos.0, pos.1]});
+            let wit = |kind: &str, uri: &str, pos: (u32, u32)| json!({"prefix_a": pa, "prefix_b": pb, "inline": inline, "edited": edited, "offers_utf8": offers_utf8, "request": kind, "document": if uri == ua { "a" } else { "b" }, "position": [pos.0, pos.1]});
             for (uri, doc) in &docs {
-                for (pos, off) in doc.valid_positions() {
+                for (_, off) in doc.valid_positions() {
                     let names = names_touching(&doc.text, off);
                     if names.is_empty() {
                         continue;
                     }
+                    let enc = enc.borrow().clone();
+                    let pos = pos_in(doc, off, &enc);
                     let upper = names.iter().any(|w| w.chars().next().map_or(false, |c| c.is_ascii_uppercase()));
                     let tdp = json!({"textDocument": {"uri": uri}, "position": {"line": pos.0, "character": pos.1}});
                     let mut reqs = vec![
@@ -376,7 +430,7 @@ fn server_locations_layer(rep: &mut Report, tier: Tier) {
                             };
                             let p = |k: &str| (r[k]["line"].as_u64().unwrap_or(u64::MAX) as u32, r[k]["character"].as_u64().unwrap_or(u64::MAX) as u32);
                             let (s, e) = (p("start"), p("end"));
-                            let sel = match (target.offset_of(s.0, s.1), target.offset_of(e.0, e.1)) {
+                            let sel = match (offset_in(target, s.0, s.1, &enc), offset_in(target, e.0, e.1, &enc)) {
                                 (Some(so), Some(eo)) if so <= eo => Some(target.text[so..eo].to_string()),
                                 _ => None,
                             };
@@ -420,7 +474,7 @@ fn server_locations_layer(rep: &mut Report, tier: Tier) {
         transitions: located,
         executions: n,
         exhaustive: true,
-        bound: format!("two-module package (real directory, real router): {} combinations of 4 leading-comment prefixes per module (different line counts, 2-/3-/4-byte characters) x multi-byte string before the identifiers on their lines or not x as opened, or after one didChange with two changes (two lines inserted at the top, the second addressed after the first); references / definition / documentHighlight / prepareRename / rename at every character boundary touching an identifier in both documents; every returned range resolved in the client's copy of the addressed document", cfgs.len()),
+        bound: format!("two-module package (real directory, real router): {} combinations of 4 leading-comment prefixes per module (different line counts, 2-/3-/4-byte characters) x multi-byte string before the identifiers on their lines or not x as opened, or after one didChange with two changes (two lines inserted at the top, the second addressed after the first), or with a client that offers UTF-8 positions in `initialize` and counts columns in the encoding the server announces; references / definition / documentHighlight / prepareRename / rename at every character boundary touching an identifier in both documents; every returned range resolved in the client's copy of the addressed document", cfgs.len()),
         ..Default::default()
     });
 }
@@ -430,7 +484,7 @@ pub fn replay_c14(w: &serde_json::Value) -> Vec<String> {
         // server-locations layer: re-run it and report what it finds for the same configuration and request
         let mut rep = Report::new("C14", Tier::Thorough);
         server_locations_layer(&mut rep, Tier::Thorough);
-        let same = |v: &Violation| ["prefix_a", "prefix_b", "inline", "edited", "request", "document"].iter().all(|k| v.witness[*k] == w[*k]);
+        let same = |v: &Violation| ["prefix_a", "prefix_b", "inline", "edited", "offers_utf8", "request", "document"].iter().all(|k| v.witness[*k] == w[*k]);
         return rep.violations.iter().filter(|v| same(v)).map(|v| format!("{}: {}", v.class, v.detail)).collect();
     }
     let text = if let Some(t) = w["text"].as_str() {
@@ -723,6 +777,22 @@ fn disk_layer(rep: &mut Report, tier: Tier) {
                     continue;
                 }
             }
+            // file-watcher events for the open document (created / changed / deleted, and the
+            // delete + create pair of an atomic save): the editor's buffer stays the truth
+            for events in [vec![1], vec![2], vec![3], vec![3, 1], vec![2, 3]] {
+                let mut srv2 = InProc::new();
+                let _ = srv2.open(&uri, et);
+                let changes: Vec<serde_json::Value> = events.iter().map(|t| json!({"uri": uri, "type": t})).collect();
+                let r = srv2.notify("workspace/didChangeWatchedFiles", json!({"changes": changes}));
+                let _ = srv2.notify("textDocument/didChange", json!({"textDocument": {"uri": uri, "version": 2}, "contentChanges": [{"range": {"start": {"line": 0, "character": 0}, "end": {"line": 0, "character": 0}}, "text": "a"}]}));
+                n += 1;
+                let got = srv2.server_text(&uri);
+                let want_after = RefDoc::new(format!("a{et}")).without_cr();
+                if !matches!((&r, &got), (Ok(_), Ok(Some(g))) if *g == want_after) {
+                    let names: Vec<&str> = events.iter().map(|t| match t { 1 => "created", 2 => "changed", _ => "deleted" }).collect();
+                    rep.violation(Violation { class: "watched-file-event-changed-open-document".into(), key: format!("{lname}|{}", names.join("+")), witness: json!({"layout": lname, "editor_text": et, "watched_events": events}), detail: format!("layout {lname}: didOpen, watched-file events {names:?} for the open document, then an edit inserting \"a\" at 0:0: the server has {got:?}, the editor {:?}", format!("a{et}")) });
+                }
+            }
             // every valid single edit afterwards
             let d = RefDoc::new(*et);
             let pos = d.valid_positions();
@@ -754,7 +824,7 @@ fn disk_layer(rep: &mut Report, tier: Tier) {
         transitions: n,
         executions: n,
         exhaustive: true,
-        bound: "3 project layouts (free-standing file, <pkg>/src, <pkg>/test; real directories) x 4 editor buffers differing from the file on disk x didOpen + every valid single edit with a <=1-symbol replacement".into(),
+        bound: "3 project layouts (free-standing file, <pkg>/src, <pkg>/test; real directories) x 4 editor buffers differing from the file on disk x didOpen + every valid single edit with a <=1-symbol replacement; and didOpen + watched-file events for the open document (created, changed, deleted, deleted+created, changed+deleted) + an edit".into(),
         ..Default::default()
     });
 }
